@@ -331,7 +331,9 @@ where
                     } else if pop_idx - 1 < spans.len() {
                         Span::new(spans[pop_idx - 1].start(), spans[spans.len() - 1].end())
                     } else {
-                        Span::new(spans[spans.len() - 1].start(), spans[spans.len() - 1].end())
+                        // An empty production derives no lexemes: it gets a zero-length span
+                        // positioned where the previous symbol ended.
+                        Span::new(spans[spans.len() - 1].end(), spans[spans.len() - 1].end())
                     };
                     spans.truncate(pop_idx - 1);
                     spans.push(span);
@@ -446,8 +448,10 @@ where
                                     spans_uw[spans_uw.len() - 1].end(),
                                 )
                             } else {
+                                // An empty production derives no lexemes: it gets a
+                                // zero-length span positioned where the previous symbol ended.
                                 Span::new(
-                                    spans_uw[spans_uw.len() - 1].start(),
+                                    spans_uw[spans_uw.len() - 1].end(),
                                     spans_uw[spans_uw.len() - 1].end(),
                                 )
                             };
